@@ -215,6 +215,17 @@ impl<'a> GeneratorState<'a> {
                                         .compiler_state
                                         .syntax_error("Can't call an interrupt routine", pos));
                                 }
+                                // The bank switching calls of these schemes store into ROM_SELECT
+                                if (self.bankswitching_scheme == "3E"
+                                    || self.bankswitching_scheme.starts_with("SuperGame"))
+                                    && f.bank != self.current_bank
+                                    && !self.compiler_state.variables.contains_key("ROM_SELECT")
+                                {
+                                    return Err(self.compiler_state.syntax_error(
+                                        "ROM_SELECT must be declared to call a function in another bank",
+                                        pos,
+                                    ));
+                                }
                                 if f.inline {
                                     if f.code.is_some() {
                                         self.push_code(var, pos)?;
